@@ -139,11 +139,18 @@ def graph_roles(ctx):
     v = Vals(tb)
     out = {"table_builder": tb}
     idr = id_roles(ctx)
+    stores = []
     for bi, si, st in pat.stmts(tb):
         flds = [e for e in st["place"]["p"] if e["k"] == "field"]
-        if not flds or flds[-1]["name"] not in ("loop_number", "mass_momentum_spanning"):
-            continue
-        op = st["rv"].get("op")
+        if flds and flds[-1]["name"] in ("loop_number", "mass_momentum_spanning"):
+            stores.append((flds[-1]["name"], st["rv"].get("op")))
+        rv_ = st["rv"]
+        if rv_["k"] == "aggregate" and rv_.get("agg") == "adt" and rv_.get("fields"):
+            # the whole entry written at once: `*entry = Entry { loop_number: Some(..), .. }`
+            for nm_ in ("loop_number", "mass_momentum_spanning"):
+                if nm_ in rv_["fields"]:
+                    stores.append((nm_, rv_["ops"][rv_["fields"].index(nm_)]))
+    for fname, op in stores:
         if not op or op["k"] not in ("copy", "move"):
             continue
         r = v.deep_root(op)
@@ -165,7 +172,7 @@ def graph_roles(ctx):
                 t = d[2]
         cb = R.body_of_callee(t.get("callee")) if t is not None else None
         if cb is not None:
-            out["loopnum" if flds[-1]["name"] == "loop_number" else "spanning"] = cb
+            out.setdefault("loopnum" if fname == "loop_number" else "spanning", cb)
     for k in ("loopnum", "spanning"):
         if k not in out:
             from .roles import writes_field
